@@ -45,6 +45,8 @@ TEnd   == /\ Has /\ E.e = "End" /\ End
           /\ chain = E.ret                         \* returned = the chain after exactly k rounds
           /\ buf = E.bufAfter                      \* the caller's tensor: untouched, or updated in place
           /\ (ow => E.same)                        \* overwrite: the returned tensor is the caller's
+          /\ (~ow => ~E.same)                      \* otherwise it shares no memory with the start state (the result is
+                                                   \* the caller's to advance in place; "left untouched" must survive that)
           /\ Step
 TNext == TStart \/ TBegin \/ TDraw \/ TEnd
 
